@@ -33,15 +33,20 @@ type cacheEvent struct {
 
 // objCache is one owner's slice of a watch cache: applied objects plus the
 // FIFO of events not applied yet.
+// The controller is handed the SHARED objects, as a real informer does (mutating them corrupts the cache
+// until the next watch event replaces the object); the oracle's view is built from the PRISTINE copies,
+// i.e. what the watch actually delivered.
 type objCache struct {
 	nodes map[string]*v1.Node
 	pods  map[string]*v1.Pod
+	nodesPristine map[string]*v1.Node
+	podsPristine  map[string]*v1.Pod
 	queue []cacheEvent
 	stallUntil time.Time
 }
 
 func newObjCache() *objCache {
-	return &objCache{nodes: map[string]*v1.Node{}, pods: map[string]*v1.Pod{}}
+	return &objCache{nodes: map[string]*v1.Node{}, pods: map[string]*v1.Pod{}, nodesPristine: map[string]*v1.Node{}, podsPristine: map[string]*v1.Pod{}}
 }
 
 func (c *objCache) apply(n int) int {
@@ -51,13 +56,17 @@ func (c *objCache) apply(n int) int {
 	for _, e := range c.queue[:n] {
 		switch {
 		case e.node != nil && !e.del:
-			c.nodes[e.key] = e.node
+			c.nodesPristine[e.key] = e.node
+			c.nodes[e.key] = e.node.DeepCopy()
 		case e.node != nil && e.del:
 			delete(c.nodes, e.key)
+			delete(c.nodesPristine, e.key)
 		case e.pod != nil && !e.del:
-			c.pods[e.key] = e.pod
+			c.podsPristine[e.key] = e.pod
+			c.pods[e.key] = e.pod.DeepCopy()
 		case e.pod != nil && e.del:
 			delete(c.pods, e.key)
+			delete(c.podsPristine, e.key)
 		}
 	}
 	c.queue = c.queue[n:]
@@ -198,6 +207,24 @@ func (k *Kube) syncAllCaches() {
 	}
 }
 
+func (k *Kube) pristineNode(name string) *v1.Node {
+	for _, c := range k.nodeCache {
+		if n, ok := c.nodesPristine[name]; ok {
+			return n
+		}
+	}
+	return nil
+}
+
+func (k *Kube) pristinePod(name string) *v1.Pod {
+	for _, c := range k.podCache {
+		if p, ok := c.podsPristine[name]; ok {
+			return p
+		}
+	}
+	return nil
+}
+
 // ---- simulated listers (v1lister interfaces over the caches) ---------------
 
 type simNodeLister struct{ k *Kube }
@@ -268,7 +295,7 @@ func (l *simNodeLister) List(sel labels.Selector) ([]*v1.Node, error) {
 		return nil, errors.New("sim: injected node list error")
 	}
 	k.advance("nodes")
-	var out []*v1.Node
+	var out, pristine []*v1.Node
 	for _, o := range k.owners() {
 		c := k.ncache(o)
 		names := make([]string, 0, len(c.nodes))
@@ -277,11 +304,12 @@ func (l *simNodeLister) List(sel labels.Selector) ([]*v1.Node, error) {
 		}
 		sort.Strings(names)
 		for _, i := range w.listOrder(o, "nodes", len(names)) {
-			out = append(out, c.nodes[names[i]].DeepCopy())
+			out = append(out, c.nodes[names[i]])
+			pristine = append(pristine, c.nodesPristine[names[i]])
 		}
 	}
 	if w.gscan != nil {
-		w.gscan.AllNodes = out
+		w.gscan.AllNodes = pristine
 	}
 	return out, nil
 }
@@ -295,7 +323,7 @@ func (l *simPodLister) List(sel labels.Selector) ([]*v1.Pod, error) {
 		return nil, errors.New("sim: injected pod list error")
 	}
 	k.advance("pods")
-	var out []*v1.Pod
+	var out, pristine []*v1.Pod
 	for _, o := range k.owners() {
 		c := k.pcache(o)
 		names := make([]string, 0, len(c.pods))
@@ -304,11 +332,12 @@ func (l *simPodLister) List(sel labels.Selector) ([]*v1.Pod, error) {
 		}
 		sort.Strings(names)
 		for _, i := range w.listOrder(o, "pods", len(names)) {
-			out = append(out, c.pods[names[i]].DeepCopy())
+			out = append(out, c.pods[names[i]])
+			pristine = append(pristine, c.podsPristine[names[i]])
 		}
 	}
 	if w.gscan != nil {
-		w.gscan.AllPods = out
+		w.gscan.AllPods = pristine
 	}
 	return out, nil
 }
